@@ -689,6 +689,26 @@ Proof.
   rewrite Epr, Esz, Emiss, Epok. cbn [negb]. rewrite hbind_hret. reflexivity.
 Qed.
 
+Lemma on_proposal_accepts_re cfg s key j mv n h :
+  justification_view (E := unit) (cchk cfg) j = Ok mv ->
+  ((vnum mv <? r_view s) || ((vnum mv =? r_view s) && negb (phase_eqb (r_phase s) Prepare))) = false ->
+  key = cleader cfg (vnum mv) ->
+  justification_verify (cg cfg) (ce cfg) (cC cfg) j = Ok tt ->
+  get_implied_block (E := unit) (cchk cfg) (cC cfg) (cfirst cfg) j = Ok (n, Some h) ->
+  (n <? r_store_first s) = false ->
+  on_proposal cfg s key true None j =
+    hbind (process_justification cfg
+             (set_high_vote (set_phase (set_view s (vnum mv)) PCommit)
+                (Some {| cview := mv; cprop := {| hnum := n; hpay := h |} |})) j)
+      (fun s _ => hbind (backup_state cfg s) (fun s _ =>
+         hemit s (ESend (MCommit {| cview := mv; cprop := {| hnum := n; hpay := h |} |})))).
+Proof.
+  intros Ejv Eold Ekey Ever Eimp Epr. unfold on_proposal.
+  rewrite Ejv. cbn [lift]. rewrite hbind_hret. cbv zeta. rewrite Eold.
+  rewrite <- Ekey, Z.eqb_refl. cbn [negb]. rewrite Ever, Eimp. cbn [lift]. rewrite hbind_hret.
+  rewrite Epr. rewrite hbind_hret. reflexivity.
+Qed.
+
 Lemma vote_tail_post cfg s1 j vote :
   let x := hbind (process_justification cfg s1 j)
              (fun s _ => hbind (backup_state cfg s) (fun s _ => hemit s (ESend (MCommit vote)))) in
